@@ -145,11 +145,15 @@ func (ex *Exec) sprintf(c *callCtx) *StrV {
 			terms = append(terms, ex.strStructured(fmt.Sprintf("<arg%d>", i)))
 			continue
 		}
-		switch x := iv.Alts[0].Val.(type) {
+		val := iv.Alts[0].Val
+		if sl, ok := val.(*SliceV); ok && iv.Alts[0].Typ.String() == "net.IP" {
+			val = ex.ipString(c.st, sl)
+		}
+		switch x := val.(type) {
 		case *StrV:
 			if x.Term == nil {
 				goArgs[i] = x.S
-				terms = append(terms, ex.strStructured(x.S))
+				terms = append(terms, ex.strTerm(x))
 			} else {
 				allConc = false
 				terms = append(terms, x.Term)
@@ -176,21 +180,28 @@ func (ex *Exec) sprintf(c *callCtx) *StrV {
 			terms = append(terms, ex.strStructured(fmt.Sprintf("<%T>", x)))
 		}
 	}
+	// structured form
+	var st *Term
+	if format == "%s:%d" && len(terms) == 2 && terms[1].Op == OpStrCons && terms[1].Name == "sint" {
+		// host:port, the same shape as UDPAddr.String()
+		st = ex.tb.StrCons("shp", terms[0], terms[1].Args[0])
+	} else {
+		id, ok := ex.fmtIDs[format]
+		if !ok {
+			id = len(ex.fmtIDs) + 1
+			ex.fmtIDs[format] = id
+		}
+		ts := append([]*Term(nil), terms...)
+		for len(ts) < 3 {
+			ts = append(ts, ex.strStructured(""))
+		}
+		st = ex.tb.StrCons("sfmt", ex.tb.Int(int64(id)), ts[0], ts[1], ts[2])
+		for i := 3; i < len(ts); i++ {
+			st = ex.tb.StrCons("sfmt", ex.tb.Int(int64(-id)), st, ts[i], ex.strStructured(""))
+		}
+	}
 	if allConc {
-		return &StrV{S: fmt.Sprintf(format, goArgs...)}
+		return &StrV{S: fmt.Sprintf(format, goArgs...), Struct: st}
 	}
-	id, ok := ex.fmtIDs[format]
-	if !ok {
-		id = len(ex.fmtIDs) + 1
-		ex.fmtIDs[format] = id
-	}
-	for len(terms) < 3 {
-		terms = append(terms, ex.strStructured(""))
-	}
-	// more than three arguments: nest
-	t := ex.tb.StrCons("sfmt", ex.tb.Int(int64(id)), terms[0], terms[1], terms[2])
-	for i := 3; i < len(terms); i++ {
-		t = ex.tb.StrCons("sfmt", ex.tb.Int(int64(-id)), t, terms[i], ex.strStructured(""))
-	}
-	return &StrV{Term: t}
+	return &StrV{Term: st}
 }
